@@ -10,7 +10,7 @@ sys.path.insert(0, HERE)
 sys.dont_write_bytecode = True
 
 # checks that have been run end to end on the unchanged tree by the integrator
-READY = ['C01', 'C02', 'C03', 'C04', 'C05', 'C06', 'C07', 'C08', 'C09', 'C10', 'C11', 'C12', 'C13', 'C14', 'C15', 'C17', 'C18', 'C19', 'C20']
+READY = ['C01', 'C02', 'C03', 'C04', 'C05', 'C06', 'C07', 'C08', 'C09', 'C10', 'C11', 'C12', 'C13', 'C14', 'C15', 'C16', 'C17', 'C18', 'C19', 'C20']
 
 CHECKS = {}
 for f in sorted(os.listdir(os.path.join(HERE, 'props'))):
